@@ -479,6 +479,20 @@ func (fc *FuncCtx) runGhostAts(call *ast.CallExpr, before bool, st *St, results 
 			continue
 		}
 		extra := map[string]Term{}
+		// $k: the k-th argument of the anchored call (evaluated without side conditions, in the state at the anchor),
+		// so that an anchor need not name a local variable or a compiler temporary of the code
+		if strings.Contains(ga.Src, "$") {
+			nobl := len(fc.Obls)
+			for k, a := range call.Args {
+				if strings.Contains(ga.Src, fmt.Sprintf("$%d", k)) {
+					func() {
+						defer func() { recover() }()
+						extra[fmt.Sprintf("$%d", k)] = fc.evalPure(a, st)
+					}()
+				}
+			}
+			fc.Obls = fc.Obls[:nobl]
+		}
 		if !before {
 			if len(results) > 0 {
 				extra["ret"] = results[0]
@@ -562,7 +576,7 @@ func (fc *FuncCtx) callNamed(key string, fn *types.Func, args []Term, call *ast.
 			if i := strings.LastIndex(short, "."); i >= 0 {
 				short = short[i+1:]
 			}
-			if fc.Con.InlineAt[short] && !callFreeLiteralsOnly(args) {
+			if fc.Con.InlineAt[short] && !fc.callFreeLiteralsOnly(args) {
 				// (a call whose function arguments are all call-free literals, e.g. a field projection, stays a
 				// contract call: nothing in it needs call-site invariants, and the callee's postcondition is more precise)
 				site = short
@@ -685,8 +699,8 @@ func (fc *FuncCtx) tsubstFor(call *ast.CallExpr, fn *types.Func) map[string]*Sor
 }
 
 // callFreeLiteralsOnly: there is at least one function-valued argument and every one of them is a literal
-// whose body contains no call.
-func callFreeLiteralsOnly(args []Term) bool {
+// whose body calls nothing but functions under a contract without effects (no modifies clause, panics never).
+func (fc *FuncCtx) callFreeLiteralsOnly(args []Term) bool {
 	n := 0
 	for _, a := range args {
 		if a.Fn == nil {
@@ -696,14 +710,24 @@ func callFreeLiteralsOnly(args []Term) bool {
 		if a.Fn.Kind != "lit" || a.Fn.Lit == nil {
 			return false
 		}
-		hasCall := false
+		effect := false
+		fc.infoStack = append(fc.infoStack, a.Fn.Info)
 		ast.Inspect(a.Fn.Lit.Body, func(nd ast.Node) bool {
-			if _, ok := nd.(*ast.CallExpr); ok {
-				hasCall = true
+			if c, ok := nd.(*ast.CallExpr); ok {
+				pure := false
+				if fn := fc.calleeFunc(c); fn != nil {
+					if con := fc.E.CS.Funcs[funcKey(fn)]; con != nil && len(con.Modifies) == 0 && con.Panics == "never" && !con.Trusted {
+						pure = true
+					}
+				}
+				if !pure {
+					effect = true
+				}
 			}
-			return !hasCall
+			return !effect
 		})
-		if hasCall {
+		fc.infoStack = fc.infoStack[:len(fc.infoStack)-1]
+		if effect {
 			return false
 		}
 	}
